@@ -30,7 +30,65 @@ def wchoice(rng, items):
     return rng.choice([n for n, w in items for _ in range(w)])
 
 
+def gen_behind(rng, tier, i):
+    """the outage is one origin *behind* an upstream proxy that stays up: requests for that origin get no answer for a
+    long time (the upstream is still trying), while tunnels to other origins through the same upstream - for the quic
+    connector: on the same long-lived connection - must not notice, and requests for the origin succeed again afterwards"""
+    sc = Scenario(rng)
+    sc.net["chaos"] = {}
+    sc.net["spawn_yield"] = rng.choice([0, 300])
+    sc.cfg["timeouts"] = {"idle": 600}
+    kind = rng.choice(["quic", "quic", "http", "socks"])
+    li = sc.add_http_listener("l")
+    if kind == "quic":
+        ci = sc.add_quic_connector("u")
+    elif kind == "http":
+        ci = sc.add_http_connector("u")
+    else:
+        ci = sc.add_socks_connector("u", version=5)
+    sc.rule("u")
+    hs_up = sc.upstream_handshake(ci)
+    serve = hs_up + [op("serve_tagged", timeout_ms=120000)]
+    # the request of the silent stream is read, then nothing: the origin behind the upstream swallows the connection attempt
+    silent = [o for o in hs_up if o["op"].startswith("recv")][:1] + [op("sleep", ms=rng.choice([15000, 40000, 90000])), op("close")]
+    nsil = rng.randint(1, 3)
+    # accept order at the upstream: long tunnel first, then the silent ones, then probes
+    scripts = [serve] + [silent] * nsil + [serve] * 8
+    key = "streams" if kind == "quic" else "conns"
+    ci["server"][key] = scripts
+    ci["server"]["default_ops"] = serve
+    tunnels = []
+
+    def tunnel(cid, at, c2s=2000, s2c=2000, slow_ms=0, dead=False):
+        seed = rng.getrandbits(60) | 1
+        hs, proto = sc.client_handshake(li, "10.9.9.9", 80 if not dead else 81)
+        hs = [dict(o, timeout_ms=200000, on_fail="continue") for o in hs]
+        if dead:
+            sc.add_client(cid, li, hs + [op("recv_eof", timeout_ms=200000, on_fail="continue", label="eof")], start_ms=at)
+            return
+        if slow_ms:
+            w = [send(tag_header(seed, c2s, s2c))] + [op("send", fill=[seed, c2s], chunk=max(1, c2s // 60), gap_ms=slow_ms, timeout_ms=600000, label="c2s")] + [op("shutdown")]
+        else:
+            w = [send(tag_header(seed, c2s, s2c)), op("send", fill=[seed, c2s], timeout_ms=30000, label="c2s"), op("shutdown")]
+        r = [op("expect", fill=[seed ^ TAG_XOR, s2c], timeout_ms=600000, label="s2c"), op("recv_eof", timeout_ms=600000, label="eof")]
+        sc.add_client(cid, li, hs + [op("par", w=w, r=r)], start_ms=at)
+        tunnels.append({"cid": cid, "at": at, "healthy": True, "seed": seed, "slow": slow_ms, "c2s": c2s, "s2c": s2c})
+
+    tunnel("long", 200, c2s=6000, s2c=6000, slow_ms=1000)          # lives for about a minute
+    for k in range(nsil):
+        tunnel("dead%d" % k, 1500 + 700 * k, dead=True)
+    for j in range(6):
+        tunnel("probe%d" % j, 5000 + 12000 * j)
+    sc.api_call("hist", "GET", "/api/history", start_ms=130000)
+    sc.meta = {"cls": "%s/origin-behind-upstream/x%d" % (kind, nsil), "cfgkey": "%s/behind/%d" % (kind, nsil), "kind": kind, "outage": "origin-behind-upstream", "windows": [],
+               "tunnels": tunnels, "probes": [], "last_up": None, "keep_ops": True, "no_generic_fill_shrink": True}
+    sc.max_ms = 200000
+    return sc.plan(want_events=False)
+
+
 def gen(rng, tier, i):
+    if rng.random() < 0.06:
+        return gen_behind(rng, tier, i)
     sc = Scenario(rng)
     cname, chaos = G.pick_chaos(rng, weights=(("none", 2), ("mild", 3)))
     if chaos:
@@ -193,7 +251,9 @@ def tunnel_ok(R, t):
         return False
     e = R.op_by_label(cid, "s2c")
     x = R.op_by_label(cid, "eof")
-    return e is not None and e["res"] == "ok" and x is not None and x["res"] == "eof@0"
+    w = R.op_by_label(t["cid"], "c2s")
+    # (the client's own stream must have gone out completely as well: a long-lived tunnel that is cut while it trickles)
+    return e is not None and e["res"] == "ok" and x is not None and x["res"] == "eof@0" and (w is None or w["res"] == "ok")
 
 
 def oracle(plan, out):
